@@ -31,6 +31,9 @@ pub enum Op {
     SplitInto(u8, u8),
     /// exact-surface lookup on the reused list
     Lookup(u16),
+    /// analyse a text and collect it into the SPARE list (the one on-demand splits were written to, which
+    /// shares the text of the reused list since then): the reused list must still report what it held
+    AnalyseIntoSpare(Vec<Piece>),
 }
 
 #[derive(Clone, Debug, Serialize, Deserialize)]
@@ -56,6 +59,7 @@ fn op(maxp: usize) -> BoxedStrategy<Op> {
         1 => (200u16..3000).prop_map(Op::Long),
         2 => (any::<u8>(), 0u8..2).prop_map(|(i, m)| Op::SplitInto(i, m)),
         2 => any::<u16>().prop_map(Op::Lookup),
+        2 => pieces(maxp).prop_map(Op::AnalyseIntoSpare),
     ]
     .boxed()
 }
@@ -362,6 +366,35 @@ impl Property for C10 {
                         }
                     }
                 }
+                Op::AnalyseIntoSpare(p) => {
+                    let text = render_pieces(&keys, p);
+                    if f7_guard(&mut rep, &case.dic, &case.cfg, &text, ctx.strict) {
+                        continue;
+                    }
+                    let sn = subset.map(|x| x.normalize()).unwrap_or(InfoSubset::all());
+                    let r = guarded(|| {
+                        let before = (observe(&list, sn), list.surface().to_string());
+                        tok.reset().push_str(&text);
+                        if tok.do_tokenize().is_ok() && spare.collect_results(&mut tok).is_ok() {
+                            let after = (observe(&list, sn), list.surface().to_string());
+                            if before != after {
+                                return Err(format!("collecting the analysis of {:?} into the spare list changed the reused list: text {:?} -> {:?}, {} -> {} morphemes", crate::driver::truncate(&text, 40), crate::driver::truncate(&before.1, 40), crate::driver::truncate(&after.1, 40), before.0.len(), after.0.len()));
+                            }
+                        }
+                        Ok(())
+                    });
+                    match r {
+                        Ok(Ok(())) => {}
+                        Ok(Err(d)) => {
+                            rep.fail("entangled-lists", format!("{}: {}", what, d));
+                            return rep;
+                        }
+                        Err(pm) => {
+                            rep.fail(&format!("entangled-panic:{}", panic_site(&pm)), format!("{}: reading the reused list after the spare list was used as a result list: {}", what, pm));
+                            return rep;
+                        }
+                    }
+                }
                 Op::Lookup(q) => {
                     if !keys.is_empty() {
                         // exact lookup on the reused list, then on-demand splits of what it found: everything must
@@ -452,7 +485,19 @@ pub fn fixtures() -> Vec<(&'static str, Case, &'static str)> {
     c.split_a = vec![WRef::Sys(0), WRef::Sys(1)];
     let dic = DicModel { matrix: Matrix { nl: 1, nr: 1, lines: vec![] }, system: vec![a, b, c], users: vec![] };
     let cfg = CfgModel::minimal(&noun);
-    vec![(
+    let entangled = (
+        "f26-split-output-list-reused-as-result-list.json",
+        Case {
+            dic: dic.clone(),
+            cfg: cfg.clone(),
+            // 東京都 analysed into the list, its A units written to the spare list (which shares the list's text from
+            // then on), a shorter text collected into the spare list: the first list must still hold 東京都
+            ops: vec![Op::Analyse(vec![Piece::Raw("東京都".into())], true), Op::SplitInto(0, 0), Op::AnalyseIntoSpare(vec![Piece::Raw("都".into())])],
+            probe: vec![Piece::Raw("都".into())],
+        },
+        "F26: the output list of split_into shares the input text of its source list; collect_results (or lookup) on it replaced that text in place, so the source list reported the other text under its old nodes (wrong surface / offsets, or a panic on a character boundary). Python: tokenize(t2, out=ms[0].split(A))",
+    );
+    vec![entangled, (
         "f24-lookup-keeps-stale-field-request.json",
         Case {
             dic,
